@@ -14,7 +14,7 @@ MaxLen == atoi(IOEnv.C19_MAXLEN)
 GenFam == IOEnv.C19_FAM          \* "map", "pset", "dset"
 FamKinds == IF GenFam = "map" THEN MapOps ELSE IF GenFam = "pset" THEN PSetOps ELSE DSetOps
 
-VARIABLE rnd                     \* simulation only: the random draw that determines the next event
+VARIABLE rnd                     \* SIM: the random draw that determines the next event; RICH: length of the start prefix; BFS: 0
 BfsInit == Init /\ rnd = 0
 (* quick tier: the last level is expanded only from a pseudo-random 1/SelMod of the states of the level
    before it (chosen by a hash of the history that reaches the state and the seed); SelMod = 1: all *)
